@@ -178,6 +178,12 @@ func (u *Unit) enterLoopHead(st *State, fr *Frame, head *ssa.BasicBlock, li *loo
 		evalPhis()
 		tag := fmt.Sprintf("#%d", ord)
 		for _, it := range u.loopInvariants(st, fr, head, ord) {
+			if it.spec != nil {
+				if err := u.obligeClause(st, it.env, it.spec, "inv-step"+tag, it.label, head.Instrs[0].Pos(), "loop invariant preserved: "+it.src, it.props, it.where); err != nil {
+					u.fail(fmt.Sprintf("%s: loop invariant %q: %v", it.where, it.src, err))
+				}
+				continue
+			}
 			u.oblige(st, "inv-step"+tag, it.label, it.term, head.Instrs[0].Pos(), "loop invariant preserved: "+it.src, it.props, it.where)
 		}
 		if fr.contract != nil && fr.contract.Loops[ord] != nil {
@@ -212,6 +218,12 @@ func (u *Unit) enterLoopHead(st *State, fr *Frame, head *ssa.BasicBlock, li *loo
 	tag := fmt.Sprintf("#%d", ord)
 	if st.discover == nil {
 		for _, it := range u.loopInvariants(st, fr, head, ord) {
+			if it.spec != nil {
+				if err := u.obligeClause(st, it.env, it.spec, "inv-init"+tag, it.label, head.Instrs[0].Pos(), "loop invariant holds on entry: "+it.src, it.props, it.where); err != nil {
+					u.fail(fmt.Sprintf("%s: loop invariant %q: %v", it.where, it.src, err))
+				}
+				continue
+			}
 			u.oblige(st, "inv-init"+tag, it.label, it.term, head.Instrs[0].Pos(), "loop invariant holds on entry: "+it.src, it.props, it.where)
 		}
 	}
